@@ -1,1 +1,367 @@
-import Pyiga.Proofs.Galerkin
+/-
+Property C09 — tensor-product fast paths and closed-form Galerkin identities.
+Property theorems only (helper lemmas live in Proofs/Galerkin*.lean).
+
+All statements are generic: any commutative ring `α` (ordered where an inequality is stated), any
+number of spans / quadrature nodes / degree / matrix size; sums are `Finset` sums over `range`.
+The B-spline values at the nodes are *functions* `V I q` (value of the — possibly differentiated —
+global function `I` at node `q`) constrained only by the hypotheses written in each theorem
+(local support, partition of unity, derivative sum zero): these are the C02 theorems.
+The regenerated closed-form determinant/inverse theorems live in `Pyiga.Gen.DetInv`.
+-/
+import Pyiga.Proofs.GalerkinAsm
+import Pyiga.Proofs.GalerkinKron
+import Mathlib.LinearAlgebra.Matrix.Determinant.Basic
+import Mathlib.Tactic.NormNum
+
+namespace Pyiga.Props.C09
+open Pyiga.Galerkin Finset
+
+section Ring
+variable {α : Type} [CommRing α]
+
+/-! ## COO index construction (`np.repeat` / `np.tile` / `np.mgrid`) -/
+
+/-- `_create_coo_1d_custom`: the `repeat/tile/mgrid` construction yields, for span `k` (outer),
+local row `a`, local column `b` (inner), the index pair `(first_act1[k]+a, first_act2[k]+b)` —
+for any number of spans and any block sizes. -/
+theorem coo_index_lists (n1 n2 : Nat) (fa1 fa2 : List Nat) (h : fa2.length = fa1.length) :
+    cooCustom fa1.length n1 n2 fa1 fa2 =
+      (fa1.flatMap fun f => (List.range n1).flatMap fun a => (List.range n2).map fun _ => f + a,
+       fa2.flatMap fun f => (List.range n1).flatMap fun _ => (List.range n2).map fun b => f + b) :=
+  cooCustom_eq n1 n2 fa1 fa2 h
+
+/-- `_create_coo_1d_from_kv`: same with `first_act[k] = spanIdx[k] - p` for both bases and
+`(p+1)²` pairs per span. -/
+theorem coo_from_kv_index_lists (p : Nat) (spanIdx : List Nat) :
+    cooFromKv p spanIdx.length spanIdx =
+      ((spanIdx.map (· - p)).flatMap fun f => (List.range (p+1)).flatMap fun a => (List.range (p+1)).map fun _ => f + a,
+       (spanIdx.map (· - p)).flatMap fun f => (List.range (p+1)).flatMap fun _ => (List.range (p+1)).map fun b => f + b) := by
+  have := cooCustom_eq (p + 1) (p + 1) (spanIdx.map (· - p)) (spanIdx.map (· - p)) rfl
+  rw [List.length_map] at this
+  exact this
+
+/-! ## `biform_1d`: span-by-span COO assembly = global Gram matrix -/
+
+/-- **`bsp_mixed_deriv_biform_1d`** (hence `bsp_mass_1d`, `bsp_stiffness_1d`, with weight function
+and explicit `nqp`): let `fa[k] = spanIdx[k] − p` be the first active function of span `k`.
+If the arrays `Dv = derivs[dv]`, `Du = derivs[du]` hold at node `q = nqp·k+t` the values of the
+`p+1` functions `fa[k] … fa[k]+p` and every other function vanishes at the nodes of span `k`
+(local support, C02), then the matrix produced by `coo_matrix((elMats.ravel(),(I,J))).tocsr()`
+has entries  `M[I,J] = Σ_{all nodes q} w_q · V_I(x_q) · U_J(x_q)`  where `w` are the quadrature
+weights after `qweights *= weightfunc(nodes)` — for every knot vector, degree and `nqp`. -/
+theorem biform_1d [DecidableEq α] (half : α) (kv : List α) (p nqp : Nat) (xg wg : List α)
+    (Dv Du : List (List α)) (wf : Option (List α)) (V U : Nat → Nat → α)
+    (hDv : Dv.length = p + 1) (hDu : Du.length = p + 1)
+    (hv : ∀ k < (spanIndices kv).length, ∀ a < p + 1, ∀ t < nqp,
+      get2 Dv a (nqp * k + t) = V (((spanIndices kv).map (· - p)).getD k 0 + a) (nqp * k + t))
+    (hu : ∀ k < (spanIndices kv).length, ∀ b < p + 1, ∀ t < nqp,
+      get2 Du b (nqp * k + t) = U (((spanIndices kv).map (· - p)).getD k 0 + b) (nqp * k + t))
+    (hsv : ∀ k < (spanIndices kv).length, ∀ t < nqp, ∀ I,
+      ¬ (((spanIndices kv).map (· - p)).getD k 0 ≤ I ∧ I < ((spanIndices kv).map (· - p)).getD k 0 + (p + 1)) →
+        V I (nqp * k + t) = 0)
+    (hsu : ∀ k < (spanIndices kv).length, ∀ t < nqp, ∀ J,
+      ¬ (((spanIndices kv).map (· - p)).getD k 0 ≤ J ∧ J < ((spanIndices kv).map (· - p)).getD k 0 + (p + 1)) →
+        U J (nqp * k + t) = 0)
+    (I J : Nat) :
+    cooEntry (biform1d half kv p nqp xg wg Dv Du wf).2.2 I J =
+      ∑ q ∈ range ((spanIndices kv).length * nqp),
+        (biform1d half kv p nqp xg wg Dv Du wf).2.1.getD q 0 * V I q * U J q := by
+  have hlen : (uniqueSorted kv).length - 1 = ((spanIndices kv).map (· - p)).length := by
+    rw [List.length_map]; exact (length_spanIndices kv).symm
+  have key := cooEntry_assembleCustom_gram nqp Dv Du ((spanIndices kv).map (· - p)) ((spanIndices kv).map (· - p))
+    (biform1d half kv p nqp xg wg Dv Du wf).2.1 rfl V U
+    (by simpa [hDv] using hv) (by simpa [hDu] using hu) (by simpa [hDv] using hsv) (by simpa [hDu] using hsu) I J
+  rw [List.length_map] at key
+  have e : (biform1d half kv p nqp xg wg Dv Du wf).2.2 =
+      assembleCustom (spanIndices kv).length nqp Dv Du
+        (cooCustom (spanIndices kv).length Dv.length Du.length ((spanIndices kv).map (· - p)) ((spanIndices kv).map (· - p))).1
+        (cooCustom (spanIndices kv).length Dv.length Du.length ((spanIndices kv).map (· - p)) ((spanIndices kv).map (· - p))).2
+        (biform1d half kv p nqp xg wg Dv Du wf).2.1 := by
+    rw [hDv, hDu]
+    simp only [biform1d, cooFromKv, cooCustom, hlen, List.length_map]
+  rw [e, key]
+  apply Finset.sum_congr rfl; intro q _; ring
+
+/-- **`bsp_mixed_deriv_biform_1d_asym`** (two knot vectors, custom quadrature grid).
+`faN1 q`, `faN2 q` = first active function of each basis *at node `q`* (what `active_deriv` uses);
+the code takes `first_active_at` of the **first** node of every quadrature cell for the whole
+cell.  Under the explicit hypothesis `hcell*` that these agree on every cell (each quadrature
+cell lies in one span of both knot vectors) the assembled matrix is the Gram matrix
+`M[I,J] = Σ_q w_q · V_I(x_q) · U_J(x_q)` (`V` = test functions of `kv2`, `U` = trial functions of
+`kv1`), for any pair of degrees/knot vectors/quadrature grid. -/
+theorem biform_1d_asym [DecidableEq α] [LinearOrder α] (half : α) (kv1 : List α) (p1 : Nat) (kv2 : List α) (p2 : Nat)
+    (quadgrid : List α) (nqp : Nat) (xg wg : List α) (derivs1 derivs2 : List (List α))
+    (V U : Nat → Nat → α) (faN1 faN2 : Nat → Nat)
+    (fa1 fa2 : List Nat)
+    (hfa1 : fa1 = (everyNth (iteratedQuadrature half xg wg quadgrid).1 nqp).map fun u => findspan kv1 p1 u 0 - p1)
+    (hfa2 : fa2 = (everyNth (iteratedQuadrature half xg wg quadgrid).1 nqp).map fun u => findspan kv2 p2 u 0 - p2)
+    (hn : fa2.length = quadgrid.length - 1)
+    -- the forced hypothesis: first-active index constant on every quadrature cell, for both bases
+    (hcell1 : ∀ k < fa2.length, ∀ t < nqp, faN1 (nqp * k + t) = fa1.getD k 0)
+    (hcell2 : ∀ k < fa2.length, ∀ t < nqp, faN2 (nqp * k + t) = fa2.getD k 0)
+    -- what `active_deriv` returns, and local support of both bases
+    (hd1 : ∀ k < fa2.length, ∀ b < derivs1.length, ∀ t < nqp,
+      get2 derivs1 b (nqp * k + t) = U (faN1 (nqp * k + t) + b) (nqp * k + t))
+    (hd2 : ∀ k < fa2.length, ∀ a < derivs2.length, ∀ t < nqp,
+      get2 derivs2 a (nqp * k + t) = V (faN2 (nqp * k + t) + a) (nqp * k + t))
+    (hs1 : ∀ k < fa2.length, ∀ t < nqp, ∀ J,
+      ¬ (faN1 (nqp * k + t) ≤ J ∧ J < faN1 (nqp * k + t) + derivs1.length) → U J (nqp * k + t) = 0)
+    (hs2 : ∀ k < fa2.length, ∀ t < nqp, ∀ I,
+      ¬ (faN2 (nqp * k + t) ≤ I ∧ I < faN2 (nqp * k + t) + derivs2.length) → V I (nqp * k + t) = 0)
+    (I J : Nat) :
+    cooEntry (biform1dAsym half kv1 p1 kv2 p2 quadgrid nqp xg wg derivs1 derivs2).2.2 I J =
+      ∑ q ∈ range (fa2.length * nqp),
+        (iteratedQuadrature half xg wg quadgrid).2.getD q 0 * V I q * U J q := by
+  have hl : fa1.length = fa2.length := by rw [hfa1, hfa2]; simp
+  have key := cooEntry_assembleCustom_gram nqp derivs2 derivs1 fa2 fa1
+    (iteratedQuadrature half xg wg quadgrid).2 hl V U
+    (fun k hk a ha t ht => by rw [hd2 k hk a ha t ht, hcell2 k hk t ht])
+    (fun k hk b hb t ht => by rw [hd1 k hk b hb t ht, hcell1 k hk t ht])
+    (fun k hk t ht I hI => hs2 k hk t ht I (by rw [hcell2 k hk t ht]; exact hI))
+    (fun k hk t ht J hJ => hs1 k hk t ht J (by rw [hcell1 k hk t ht]; exact hJ)) I J
+  have e : (biform1dAsym half kv1 p1 kv2 p2 quadgrid nqp xg wg derivs1 derivs2).2.2 =
+      assembleCustom fa2.length nqp derivs2 derivs1
+        (cooCustom fa2.length derivs2.length derivs1.length fa2 fa1).1
+        (cooCustom fa2.length derivs2.length derivs1.length fa2 fa1).2
+        (iteratedQuadrature half xg wg quadgrid).2 := by
+    simp only [biform1dAsym, ← hfa1, ← hfa2, hn]
+  rw [e, key]
+  apply Finset.sum_congr rfl; intro q _; ring
+
+end Ring
+
+/-- The cell hypothesis of `biform_1d_asym` cannot be dropped: a quadrature grid coarser than
+`kv2` (`kv1 = [0,0,1,1]`, `kv2 = [0,0,½,1,1]`, degree 1, `quadgrid = [0,1]`, two nodes ¼, ¾ with
+weight ½).  The model (as the code) takes the first active function of `kv2` at the first node
+for the whole cell, so row 2 of the assembled matrix is empty, whereas the Gram entry
+`Σ_q w_q N₂(x_q) N₀(x_q) = ½·½·¼ = 1/16 ≠ 0`.  (Replayed on the implementation by the harness;
+outside the property: its quantifier is "on a common mesh".) -/
+theorem biform_1d_asym_needs_cell_hyp :
+    cooEntry (biform1dAsym (1/2 : ℚ) [0,0,1,1] 1 [0,0,1/2,1,1] 1 [0,1] 2 [-1/2, 1/2] [1, 1]
+      [[3/4, 1/4], [1/4, 3/4]] [[1/2, 1/2], [1/2, 1/2]]).2.2 2 0 = 0 ∧
+    (1/2 : ℚ) * (1/2) * (1/4) ≠ 0 := by
+  constructor
+  · decide +kernel
+  · norm_num
+
+section Ring
+variable {α : Type} [CommRing α]
+
+/-! ## `kron_path`: Kronecker fast paths = full tensor-product Gauss sum -/
+
+/-- **`bsp_mass_2d` (geo=None)**: if the 1-D matrices are Gram matrices of their quadrature rules
+then `kron(M1,M2)` at the Kronecker index `(i₁·n₂+i₂, j₁·m₂+j₂)` is the full tensor-product
+Gauss sum of the separable integrand `v_{i₁}(x)v_{i₂}(y)·u_{j₁}(x)u_{j₂}(y)` — the generic
+assembler's specification with identity geometry. -/
+theorem kron_path_mass_2d (M1 M2 : List (List α)) (Q1 Q2 : Nat) (w1 w2 : Nat → α) (V1 U1 V2 U2 : Nat → Nat → α)
+    (h1 : ∀ i j, get2 M1 i j = gram Q1 w1 V1 U1 i j) (h2 : ∀ i j, get2 M2 i j = gram Q2 w2 V2 U2 i j)
+    (i1 i2 j1 j2 : Nat) (hi1 : i1 < matRows M1) (hi2 : i2 < matRows M2) (hj1 : j1 < matCols M1) (hj2 : j2 < matCols M2) :
+    get2 (mass2d M1 M2) (i1 * matRows M2 + i2) (j1 * matCols M2 + j2) =
+      ∑ q1 ∈ range Q1, ∑ q2 ∈ range Q2,
+        (w1 q1 * w2 q2) * (V1 i1 q1 * V2 i2 q2) * (U1 j1 q1 * U2 j2 q2) := by
+  unfold mass2d
+  rw [get2_kron _ _ _ _ _ _ hi1 hi2 hj1 hj2, h1, h2, gram_mul_gram]
+
+/-- **`bsp_stiffness_2d` (geo=None)**: `kron(K1,M2)+kron(M1,K2)` is the sum of the two
+tensor-product Gauss sums `∂ₓv ∂ₓu · v u` and `v u · ∂ᵧv ∂ᵧu` (each 1-D factor with its own rule:
+the code uses `nqp = p` for `K` and `p+1` for `M`; with equal rules this is `Σ w ∇v·∇u`). -/
+theorem kron_path_stiffness_2d (M1 K1 M2 K2 : List (List α))
+    (QM1 QK1 QM2 QK2 : Nat) (wM1 wK1 wM2 wK2 : Nat → α) (N1 D1 N2 D2 N1' D1' N2' D2' : Nat → Nat → α)
+    (hM1 : ∀ i j, get2 M1 i j = gram QM1 wM1 N1 N1' i j) (hK1 : ∀ i j, get2 K1 i j = gram QK1 wK1 D1 D1' i j)
+    (hM2 : ∀ i j, get2 M2 i j = gram QM2 wM2 N2 N2' i j) (hK2 : ∀ i j, get2 K2 i j = gram QK2 wK2 D2 D2' i j)
+    (hr1 : matRows K1 = matRows M1) (hc1 : matCols K1 = matCols M1)
+    (hr2 : matRows K2 = matRows M2) (hc2 : matCols K2 = matCols M2)
+    (i1 i2 j1 j2 : Nat) (hi1 : i1 < matRows M1) (hi2 : i2 < matRows M2) (hj1 : j1 < matCols M1) (hj2 : j2 < matCols M2) :
+    get2 (stiffness2d M1 K1 M2 K2) (i1 * matRows M2 + i2) (j1 * matCols M2 + j2) =
+      (∑ q1 ∈ range QK1, ∑ q2 ∈ range QM2,
+        (wK1 q1 * wM2 q2) * (D1 i1 q1 * N2 i2 q2) * (D1' j1 q1 * N2' j2 q2)) +
+      (∑ q1 ∈ range QM1, ∑ q2 ∈ range QK2,
+        (wM1 q1 * wK2 q2) * (N1 i1 q1 * D2 i2 q2) * (N1' j1 q1 * D2' j2 q2)) := by
+  unfold stiffness2d
+  have hi : i1 * matRows M2 + i2 < matRows M1 * matRows M2 := by
+    calc i1 * matRows M2 + i2 < i1 * matRows M2 + matRows M2 := by omega
+      _ = (i1 + 1) * matRows M2 := by ring
+      _ ≤ matRows M1 * matRows M2 := Nat.mul_le_mul_right _ hi1
+  have hj : j1 * matCols M2 + j2 < matCols M1 * matCols M2 := by
+    calc j1 * matCols M2 + j2 < j1 * matCols M2 + matCols M2 := by omega
+      _ = (j1 + 1) * matCols M2 := by ring
+      _ ≤ matCols M1 * matCols M2 := Nat.mul_le_mul_right _ hj1
+  rw [get2_matAdd]
+  · have a := get2_kron K1 M2 i1 i2 j1 j2 (hr1 ▸ hi1) hi2 (hc1 ▸ hj1) hj2
+    have b := get2_kron M1 K2 i1 i2 j1 j2 hi1 (hr2 ▸ hi2) hj1 (hc2 ▸ hj2)
+    rw [hr2, hc2] at b
+    rw [a, b, hK1, hM2, hM1, hK2, gram_mul_gram, gram_mul_gram]
+  · show _ < matRows (kron K1 M2); rw [matRows_kron, hr1]; exact hi
+  · show _ < matRows (kron M1 K2); rw [matRows_kron, hr2]; exact hi
+  · rw [rowlen_kron _ _ _ (by rw [hr1]; exact hi), hc1]; exact hj
+  · rw [rowlen_kron _ _ _ (by rw [hr2]; exact hi), hc2]; exact hj
+
+/-- **`bsp_mass_3d` (geo=None)**: `k(M0, k(M1, M2))` at the Kronecker index
+`i₀·(n₁n₂) + (i₁·n₂+i₂)` is the triple tensor-product Gauss sum. -/
+theorem kron_path_mass_3d (M0 M1 M2 : List (List α)) (Q0 Q1 Q2 : Nat) (w0 w1 w2 : Nat → α)
+    (V0 U0 V1 U1 V2 U2 : Nat → Nat → α)
+    (h0 : ∀ i j, get2 M0 i j = gram Q0 w0 V0 U0 i j)
+    (h1 : ∀ i j, get2 M1 i j = gram Q1 w1 V1 U1 i j) (h2 : ∀ i j, get2 M2 i j = gram Q2 w2 V2 U2 i j)
+    (i0 i1 i2 j0 j1 j2 : Nat) (hi0 : i0 < matRows M0) (hi1 : i1 < matRows M1) (hi2 : i2 < matRows M2)
+    (hj0 : j0 < matCols M0) (hj1 : j1 < matCols M1) (hj2 : j2 < matCols M2) :
+    get2 (mass3d M0 M1 M2) (i0 * (matRows M1 * matRows M2) + (i1 * matRows M2 + i2))
+        (j0 * (matCols M1 * matCols M2) + (j1 * matCols M2 + j2)) =
+      ∑ q0 ∈ range Q0, ∑ q1 ∈ range Q1, ∑ q2 ∈ range Q2,
+        (w0 q0 * (w1 q1 * w2 q2)) * (V0 i0 q0 * (V1 i1 q1 * V2 i2 q2)) * (U0 j0 q0 * (U1 j1 q1 * U2 j2 q2)) := by
+  unfold mass3d
+  have hi : i1 * matRows M2 + i2 < matRows M1 * matRows M2 := by
+    calc i1 * matRows M2 + i2 < i1 * matRows M2 + matRows M2 := by omega
+      _ = (i1 + 1) * matRows M2 := by ring
+      _ ≤ matRows M1 * matRows M2 := Nat.mul_le_mul_right _ hi1
+  have hj : j1 * matCols M2 + j2 < matCols M1 * matCols M2 := by
+    calc j1 * matCols M2 + j2 < j1 * matCols M2 + matCols M2 := by omega
+      _ = (j1 + 1) * matCols M2 := by ring
+      _ ≤ matCols M1 * matCols M2 := Nat.mul_le_mul_right _ hj1
+  have hr : matRows (kron M1 M2) = matRows M1 * matRows M2 := matRows_kron _ _
+  have hc : matCols (kron M1 M2) = matCols M1 * matCols M2 := matCols_kron _ _ (by omega)
+  have a := get2_kron M0 (kron M1 M2) i0 (i1 * matRows M2 + i2) j0 (j1 * matCols M2 + j2) hi0
+    (by rw [hr]; exact hi) hj0 (by rw [hc]; exact hj)
+  rw [hr, hc] at a
+  rw [a, get2_kron _ _ _ _ _ _ hi1 hi2 hj1 hj2, h0, h1, h2]
+  unfold gram
+  rw [Finset.sum_mul_sum, Finset.sum_mul]
+  apply Finset.sum_congr rfl; intro q0 _
+  rw [Finset.mul_sum]
+  apply Finset.sum_congr rfl; intro q1 _
+  rw [Finset.mul_sum]
+  apply Finset.sum_congr rfl; intro q2 _
+  ring
+
+/-! ## Gauss rule affine map -/
+
+/-- `make_iterated_quadrature`: the weights sum to `0.5 · Σw · (last − first)` of the interval
+list, for any number of intervals and nodes; with `0.5·Σw = 1` (Gauss weights sum to 2) this is
+the length `b − a` of the knot vector's domain. -/
+theorem gauss_weights_sum (half : α) (xg wg : List α) (a : α) (mesh : List α) (hw : half * wg.sum = 1) :
+    (iteratedQuadrature half xg wg (a :: mesh)).2.sum = (a :: mesh).getLast (by simp) - a := by
+  unfold iteratedQuadrature
+  rw [gaussRule_weights_sum, sum_consecutive_diffs, hw, one_mul]
+
+/-! ## consequences for Gram matrices -/
+
+/-- **total mass**: partition of unity of test and trial basis at every node ⇒ the entries of the
+mass matrix sum to the sum of the quadrature weights (`= b − a` by `gauss_weights_sum`). -/
+theorem total_mass (Q n m : Nat) (w : Nat → α) (V U : Nat → Nat → α)
+    (hV : ∀ q < Q, ∑ I ∈ range n, V I q = 1) (hU : ∀ q < Q, ∑ J ∈ range m, U J q = 1) :
+    ∑ I ∈ range n, ∑ J ∈ range m, gram Q w V U I J = ∑ q ∈ range Q, w q :=
+  gram_total Q n m w V U hV hU
+
+/-- **`K·1 = 0`**: if the trial-function derivatives sum to zero at every node (`dN_sum_zero`, C02)
+every row of the stiffness matrix sums to zero. -/
+theorem stiffness_row_sum_zero (Q m : Nat) (w : Nat → α) (V U : Nat → Nat → α)
+    (hU : ∀ q < Q, ∑ J ∈ range m, U J q = 0) (I : Nat) :
+    ∑ J ∈ range m, gram Q w V U I J = 0 := by
+  rw [gram_row_sum]
+  apply Finset.sum_eq_zero; intro q hq
+  rw [hU q (Finset.mem_range.mp hq), mul_zero]
+
+/-- **`1ᵀK = 0`** -/
+theorem stiffness_col_sum_zero (Q n : Nat) (w : Nat → α) (V U : Nat → Nat → α)
+    (hV : ∀ q < Q, ∑ I ∈ range n, V I q = 0) (J : Nat) :
+    ∑ I ∈ range n, gram Q w V U I J = 0 := by
+  rw [gram_col_sum]
+  apply Finset.sum_eq_zero; intro q hq
+  rw [hV q (Finset.mem_range.mp hq), mul_zero]
+
+/-- `M`, `K` symmetric (same basis and derivative order on both sides) -/
+theorem gram_symmetric (Q : Nat) (w : Nat → α) (V : Nat → Nat → α) (I J : Nat) :
+    gram Q w V V I J = gram Q w V V J I := gram_symm Q w V I J
+
+/-- `xᵀ M x = Σ_q w_q (Σ_I x_I N_I(x_q))²` -/
+theorem gram_quadratic_form (Q n : Nat) (w : Nat → α) (V : Nat → Nat → α) (x : Nat → α) :
+    ∑ I ∈ range n, ∑ J ∈ range n, x I * gram Q w V V I J * x J =
+      ∑ q ∈ range Q, w q * (∑ I ∈ range n, x I * V I q) ^ 2 := gram_quadratic Q n w V x
+
+/-- Kronecker product of symmetric matrices is symmetric (entry level, every index) -/
+theorem kron_symmetric (A B : Nat → Nat → α) (m : Nat) (hA : ∀ i j, A i j = A j i) (hB : ∀ i j, B i j = B j i)
+    (i j : Nat) : kronEntry A B m m i j = kronEntry A B m m j i := by
+  unfold kronEntry; rw [hA, hB]
+
+/-- the entries of a Kronecker product sum to the product of the factors' sums: with
+`total_mass` in every direction, `Σ bsp_mass_2d/3d = area / volume` of the parameter box. -/
+theorem kron_total (A B : Nat → Nat → α) (mA nA mB nB : Nat) :
+    ∑ i ∈ range (mA * mB), ∑ j ∈ range (nA * nB), kronEntry A B mB nB i j =
+      (∑ i ∈ range mA, ∑ j ∈ range nA, A i j) * (∑ i ∈ range mB, ∑ j ∈ range nB, B i j) :=
+  kron_total_fn A B mA nA mB nB
+
+/-! ## load vector / integrate -/
+
+/-- `bspline.load_vector`: entry `i` of `C.T.dot(w * f(nodes))` is `Σ_q C[q,i] · (w_q f_q)`. -/
+theorem load_vector_spec (C : List (List α)) (w fv : List α) (i : Nat) (hi : i < matCols C) :
+    (loadVector C w fv).getD i 0 = ∑ q ∈ range C.length, get2 C q i * (w.getD q 0 * fv.getD q 0) := by
+  unfold loadVector
+  rw [getD_colT _ _ _ hi]
+  apply Finset.sum_congr rfl; intro q _
+  rw [getD_zipWith_mul]
+
+/-- `integrate` in one dimension (with optional `|det J|` factor): `Σ_q w_q f_q (d_q)`. -/
+theorem integrate_spec (w fv : List α) :
+    integrate [w] fv none = ∑ q ∈ range (min w.length fv.length), w.getD q 0 * fv.getD q 0 := by
+  unfold integrate weightedVals tensorWeights
+  simp only
+  rw [list_sum_eq_range, List.length_zipWith]
+  apply Finset.sum_congr rfl; intro q _
+  rw [getD_zipWith_mul]
+
+/-! ## the Leibniz formulas of `Pyiga.Gen.DetInv.*_det_eq` are `Matrix.det` -/
+
+theorem det2_eq_matrix_det (x00 x01 x10 x11 : α) :
+    x00 * x11 - x01 * x10 = Matrix.det !![x00, x01; x10, x11] := by
+  rw [Matrix.det_fin_two_of]
+
+theorem det3_eq_matrix_det (x00 x01 x02 x10 x11 x12 x20 x21 x22 : α) :
+    x00 * x11 * x22 - x00 * x12 * x21 - x01 * x10 * x22 + x01 * x12 * x20 + x02 * x10 * x21 - x02 * x11 * x20 =
+      Matrix.det !![x00, x01, x02; x10, x11, x12; x20, x21, x22] := by
+  rw [Matrix.det_fin_three]
+  simp [Matrix.of_apply, Matrix.cons_val', Matrix.cons_val_zero, Matrix.cons_val_one]
+
+end Ring
+
+section Ordered
+variable {α : Type} [CommRing α] [LinearOrder α] [IsStrictOrderedRing α]
+
+/-- **`M ⪰ 0`, `K ⪰ 0`** for non-negative weights: `xᵀ G x ≥ 0` for every `x`. -/
+theorem gram_psd (Q n : Nat) (w : Nat → α) (V : Nat → Nat → α) (x : Nat → α) (hw : ∀ q < Q, 0 ≤ w q) :
+    0 ≤ ∑ I ∈ range n, ∑ J ∈ range n, x I * gram Q w V V I J * x J :=
+  Pyiga.Galerkin.gram_psd Q n w V x hw
+
+end Ordered
+
+section Field
+variable {α : Type} [Field α] [LinearOrder α] [IsStrictOrderedRing α]
+
+/-- `gauss_rule` maps reference nodes in `(-1,1)` strictly inside `(a,b)` (so every node of a
+span lies in the interior of that span and `findspan` of a node is the span's knot index). -/
+theorem gauss_nodes_inside (a b : α) (x w : List α) (hab : a < b) (hx : ∀ xi ∈ x, -1 < xi ∧ xi < 1) :
+    ∀ node ∈ (gaussRule (1 / 2 : α) x w [a] [b]).1, a < node ∧ node < b := by
+  intro node hnode
+  simp only [gaussRule, List.zipWith_cons_cons, List.zipWith_nil_right, List.zip_cons_cons, List.zip_nil_right,
+    List.flatMap_cons, List.flatMap_nil, List.append_nil, List.mem_map] at hnode
+  obtain ⟨xi, hxi, rfl⟩ := hnode
+  exact gauss_node_inside a b xi hab (hx xi hxi).1 (hx xi hxi).2
+
+end Field
+
+/-! ## non-vacuity -/
+
+/-- the hypotheses of `biform_1d` are satisfiable: degree 1, one span `[0,1]`, two nodes -/
+example : ∃ V : Nat → Nat → ℚ,
+    (∀ k < 1, ∀ a < 2, ∀ t < 2, get2 [[3/4, 1/4], [1/4, 3/4]] a (2 * k + t) = V (0 + a) (2 * k + t)) ∧
+    (∀ k < 1, ∀ t < 2, ∀ I, ¬ (0 ≤ I ∧ I < 0 + 2) → V I (2 * k + t) = 0) :=
+  ⟨fun I q => if I < 2 then get2 [[3/4, 1/4], [1/4, 3/4]] I q else 0,
+   by intro k _ a ha t _; simp [ha],
+   by intro k _ t _ I hI; have : ¬ I < 2 := by omega
+      simp [this]⟩
+
+/-- `total_mass` hypotheses hold for the hat functions at those nodes, and the model's matrix sums to 1 -/
+example : (∑ I ∈ range 2, ∑ J ∈ range 2,
+    cooEntry (biform1d (1/2 : ℚ) [0,0,1,1] 1 2 [-1/2, 1/2] [1, 1] [[3/4, 1/4], [1/4, 3/4]] [[3/4, 1/4], [1/4, 3/4]] none).2.2 I J) = 1 := by
+  decide +kernel
+
+end Pyiga.Props.C09
